@@ -289,6 +289,8 @@ def plan(ctx):
             tasks.append(("checks.C09", "task_routes", ("NAMES_CTX1", gi, 8, ("F1", "K2"), quick), b, "x1"))
         for gi in range(16):
             tasks.append(("checks.C09", "task_routes", ("NAMES_CTX2", gi, 16, ("F1",), quick), b, "x2"))
+        for gi in range(8):
+            tasks.append(("checks.C09", "task_routes", ("NAMES_BCTX", gi, 8, ("F1",), quick), b, "xb"))
     from vlib import sweep as _sw
     ctx.notes["context_routes"] = _sw.ctx_note()
     ctx.notes["bounds"] = {"route_word_spaces": "F1, X2 (thorough: + K3) through every route of vlib.routes; quick compares the object with its pickle twin only, thorough with all twins",
